@@ -801,6 +801,15 @@ const std::vector<RatioDef> kRatios = {
     {"WGRH", "WPRH", {"GPRH"}, true},
 };
 
+// ratio = num / (d1 + d2) where the terms may have opposite signs (connections and segments have no sign filter):
+// the rounding error of the denominator is relative to |d1| + |d2|, not to |d1 + d2| — compare ratio * den with num
+// under that bound (0 iff the denominator is exactly 0)
+bool ratioHolds(double ratio, double nume, double d1, double d2) {
+    const double den = d1 + d2;
+    if (den == 0.0) return ratio == 0.0;
+    return std::fabs(ratio * den - nume) <= 1e-12 * (std::fabs(ratio) * (std::fabs(d1) + std::fabs(d2)) + std::fabs(nume));
+}
+
 struct UnitConst { double liq, gas, resv, timeSec; };   // deck value = SI value * factor ; time: seconds per deck time unit
 UnitConst unitConst(const std::string& u) {
     const double day = 86400.0, stb = 0.158987294928, mscf = 28.316846592;
@@ -815,6 +824,8 @@ int runProp(uint64_t seed, bool thorough, const std::string& outdir) {
     Parser parser;
     std::map<std::string, long> stats;
     const auto keys = recognisedKeys(parser, stats);
+    const XKeys xkeys = recognisedXKeys(parser, stats);
+    std::map<std::string, long> lvlStats;
     const int ncases = thorough ? 300 : 40;
     long noted_checked = 0, noted_dev = 0;
     auto chk = [&](bool ok, const std::string& key, const std::string& detail) {
@@ -844,19 +855,35 @@ int runProp(uint64_t seed, bool thorough, const std::string& outdir) {
         }
     };
     for (int ci = 0; ci < ncases; ++ci) {
-        Case c = makeCase(rng, keys, thorough);
+        Case c = makeCase(rng, keys, thorough, &xkeys);
         std::unique_ptr<Real> Rp;
         try { Rp = std::make_unique<Real>(c.deck, parser); }
         catch (const std::exception& e) { std::cerr << "generated deck rejected: " << e.what() << "\n" << c.deck << std::endl; return 3; }
         Real& R = *Rp;
         const UnitConst uc = unitConst(c.units);
+        const double pf = c.units == "METRIC" ? 1e-5 : (c.units == "FIELD" ? 1.0 / 6894.757293168361 : 1.0 / 101325.0);
         out::Summary writer(R.cfg, R.es, R.es.getInputGrid(), R.sched, outdir + "/PCASE");
         SummaryState st(TimeService::from_time_t(R.sched.getStartTime()), R.es.runspec().udqParams().undefinedValue());
         const std::string tag = "case" + std::to_string(ci) + "/" + c.units;
         double elapsedSec = 0.0;
         for (const auto& ev : makeEvals(rng, c, R)) {
             const int s = std::max(0, ev.reportStep - 1);
-            const auto wd = makeWellData(rng, c, s, nullptr);
+            const auto wd = makeWellData(rng, c, s, nullptr, true);
+            const auto net = makeNetData(rng, c);
+            auto CV = [&](const std::string& w, const std::string& k, int num) { return st.has_conn_var(w, k, num) ? st.get_conn_var(w, k, num) : 0.0; };
+            auto SV = [&](const std::string& w, const std::string& k, int num) { return st.has_segment_var(w, k, num) ? st.get_segment_var(w, k, num) : 0.0; };
+            auto RV = [&](const std::string& set, const std::string& k, int num) { return st.has_region_var(set, k, num) ? st.get_region_var(set, k, num) : 0.0; };
+            auto LV = [&](const std::string& w, const std::string& k, int num) { const std::string key = k + ":" + w + ":" + std::to_string(num); return st.has(key) ? st.get(key) : 0.0; };
+            std::map<std::string, double> xbefore;
+            for (const auto& w : c.wells) {
+                for (int k = w.k1; k <= w.k2; ++k)
+                    for (const char* t : {"COPT", "CWPT", "CGPT", "CWIT", "CGIT", "CVPT", "CVIT", "COPTL", "CWITL"})
+                        xbefore[w.name + "/" + t + "/" + std::to_string(k)] = std::string(t).size() == 5 ? LV(w.name, t, w.gidx(k) + 1) : CV(w.name, t, w.gidx(k) + 1);
+                for (int sno = 1; sno <= w.k2 - w.k1 + 2; ++sno)
+                    for (const char* t : {"SOFT", "SGFT", "SWFT"}) xbefore[w.name + "/" + t + "/" + std::to_string(sno)] = SV(w.name, t, sno);
+                for (int n = 1; n <= 3; ++n) for (const char* t : {"WOPTL", "WGPTL", "WWITL"}) xbefore[w.name + "/" + t + "/" + std::to_string(n)] = LV(w.name, t, n);
+            }
+            for (int r = 1; r <= 4; ++r) for (const char* t : {"ROPT", "RGPT", "RWPT", "ROIT", "RGIT", "RWIT"}) xbefore[std::string("R/") + t + "/" + std::to_string(r)] = RV("FIPNUM", t, r);
             auto W = [&](const std::string& w, const std::string& k) { return st.has_well_var(w, k) ? st.get_well_var(w, k) : 0.0; };
             auto G = [&](const std::string& g, const std::string& k) { return st.has_group_var(g, k) ? st.get_group_var(g, k) : 0.0; };
             auto F = [&](const std::string& k) { return st.has(k) ? st.get(k) : 0.0; };
@@ -868,7 +895,7 @@ int runProp(uint64_t seed, bool thorough, const std::string& outdir) {
                 if (k[0] == 'G') for (const auto& g : c.groups) before[g.name + "/" + k] = G(g.name, k);
             }
             const double dtSec = ev.secs - elapsedSec;
-            writer.eval(st, ev.reportStep, ev.secs, wd, {}, {}, {}, {}, {});
+            writer.eval(st, ev.reportStep, ev.secs, wd, {}, net, {}, {}, {});
             elapsedSec = ev.secs;
             const double dt = dtSec / uc.timeSec;            // deck time units
             const std::string at = tag + "/rs" + std::to_string(ev.reportStep);
@@ -979,6 +1006,185 @@ int runProp(uint64_t seed, bool thorough, const std::string& outdir) {
                 }
             }
 
+
+            // --- below the well level: connections, completions, segments --------------------------
+            for (const auto& w : c.wells) {
+                if (!known(w)) continue;
+                const bool fl = flowing(w);
+                auto it = wd.find(w.name);
+                const double full = w.wefac[s] * groupUp(w.group);
+                const bool isProd = fl && it->second.current_control.isProducer;
+                const bool isInj = fl && !it->second.current_control.isProducer;
+                const std::string a = at + "/" + w.name;
+                auto conn = [&](int k) -> const data::Connection* {
+                    if (!fl) return nullptr;
+                    for (const auto& cn : it->second.connections) if (cn.index == static_cast<std::size_t>(w.gidx(k))) return &cn;
+                    return nullptr;
+                };
+                std::map<int, std::map<std::string, double>> complSum;
+                bool consistent = isProd && w.producer;
+                std::map<rt, double> connTotal;
+                for (int k = w.k1; k <= w.k2; ++k) {
+                    const int num = w.gidx(k) + 1;
+                    const data::Connection* cn = conn(k);
+                    const std::string ak = a + "/k" + std::to_string(k);
+                    struct CR { const char* key; rt p; double f; bool inj; };
+                    for (const CR& cr : { CR{"COPR", rt::oil, uc.liq, false}, CR{"CWPR", rt::wat, uc.liq, false}, CR{"CGPR", rt::gas, uc.gas, false},
+                                          CR{"CWIR", rt::wat, uc.liq, true}, CR{"CGIR", rt::gas, uc.gas, true} }) {
+                        if (!st.has_conn_var(w.name, cr.key, num)) continue;
+                        const double qv = (cn && cn->rates.has(cr.p)) ? cn->rates.get(cr.p) : 0.0;
+                        const double expect = cr.inj ? (isInj ? qv : 0.0) : (isProd ? -qv : 0.0);
+                        chk(close(CV(w.name, cr.key, num), expect * cr.f, 1e-12, 0.0), std::string("conn.rate.") + cr.key,
+                            ak + " got " + g17(CV(w.name, cr.key, num)) + " expected " + g17(expect * cr.f));
+                        ++lvlStats["conn.rate"];
+                    }
+                    if (st.has_conn_var(w.name, "CVPR", num))
+                        chk(close(CV(w.name, "CVPR", num), (isProd && cn) ? -cn->reservoir_rate * uc.resv : 0.0, 1e-12, 0.0), "conn.rate.CVPR", ak);
+                    if (st.has_conn_var(w.name, "CVIR", num))
+                        chk(close(CV(w.name, "CVIR", num), (isInj && cn) ? cn->reservoir_rate * uc.resv : 0.0, 1e-12, 0.0), "conn.rate.CVIR", ak);
+                    if (st.has_conn_var(w.name, "CPR", num))
+                        chk(close(CV(w.name, "CPR", num), cn ? cn->pressure * pf : 0.0, 1e-12, 0.0), "conn.CPR", ak + " got " + g17(CV(w.name, "CPR", num)));
+                    {   // ratios of the connection from its own vectors
+                        if (st.has_conn_var(w.name, "CWCT", num))
+                            chk(ratioHolds(CV(w.name, "CWCT", num), CV(w.name, "CWPR", num), CV(w.name, "CWPR", num), CV(w.name, "COPR", num)), "conn.ratio.CWCT",
+                                ak + " CWCT=" + g17(CV(w.name, "CWCT", num)) + " CWPR=" + g17(CV(w.name, "CWPR", num)) + " COPR=" + g17(CV(w.name, "COPR", num)));
+                        if (st.has_conn_var(w.name, "CGOR", num))
+                            chk(ratioHolds(CV(w.name, "CGOR", num), CV(w.name, "CGPR", num), CV(w.name, "COPR", num), 0.0), "conn.ratio.CGOR", ak);
+                    }
+                    struct TR { const char* t; const char* r; };
+                    for (const TR& tr : { TR{"COPT", "COPR"}, TR{"CWPT", "CWPR"}, TR{"CGPT", "CGPR"}, TR{"CWIT", "CWIR"}, TR{"CGIT", "CGIR"},
+                                          TR{"CVPT", "CVPR"}, TR{"CVIT", "CVIR"}, TR{"COPTL", "COPRL"}, TR{"CWITL", "CWIRL"} }) {
+                        if (!st.has_conn_var(w.name, tr.t, num) && !st.has(std::string(tr.t) + ":" + w.name + ":" + std::to_string(num))) continue;
+                        const bool compl_ = std::string(tr.t).size() == 5;
+                        const double now = compl_ ? LV(w.name, tr.t, num) : CV(w.name, tr.t, num);
+                        const double rate = compl_ ? LV(w.name, tr.r, num) : CV(w.name, tr.r, num);
+                        const double bef = xbefore[w.name + "/" + tr.t + "/" + std::to_string(k)];
+                        chk(close(now, bef + rate * full * dt), std::string("conn.cumulative.") + tr.t,
+                            ak + " got " + g17(now) + " expected " + g17(bef + rate * full * dt) + " efac " + g17(full));
+                        ++lvlStats["conn.cumulative"];
+                    }
+                    for (const char* key : {"COPR", "CWPR", "CGPR", "CWIR", "CGIR"}) {
+                        complSum[w.complnum(k)][key] += CV(w.name, key, num);
+                        complSum[w.complnum(k)][std::string("abs.") + key] += std::fabs(CV(w.name, key, num));   // connections may cross-flow: error bound of the sum
+                    }
+                    if (!cn) consistent = false;
+                    else for (rt p : {rt::oil, rt::wat, rt::gas}) { const double qv = cn->rates.has(p) ? cn->rates.get(p) : 0.0; if (qv > 0) consistent = false; connTotal[p] += qv; }
+                }
+                // completion vector = sum of the connection vectors of its connections; C…L = W…L of the connection's completion
+                for (const auto& cs : complSum) {
+                    struct LK { const char* l; const char* cl; const char* ck; };
+                    for (const LK& lk : { LK{"WOPRL", "COPRL", "COPR"}, LK{"WWPRL", "CWPRL", "CWPR"}, LK{"WGPRL", "CGPRL", "CGPR"},
+                                          LK{"WWIRL", "CWIRL", "CWIR"}, LK{"WGIRL", "CGIRL", "CGIR"} }) {
+                        const std::string key = std::string(lk.l) + ":" + w.name + ":" + std::to_string(cs.first);
+                        if (!st.has(key)) continue;
+                        chk(std::fabs(st.get(key) - cs.second.at(lk.ck)) <= 1e-12 * cs.second.at(std::string("abs.") + lk.ck), std::string("completion.sum_of_connections.") + lk.l,
+                            a + "/compl" + std::to_string(cs.first) + " " + lk.l + "=" + g17(st.get(key)) + " but sum of " + lk.ck + " = " + g17(cs.second.at(lk.ck)));
+                        ++lvlStats["completion.sum_of_connections"];
+                        for (int k = w.k1; k <= w.k2; ++k)
+                            if (w.complnum(k) == cs.first) {
+                                const std::string ck = std::string(lk.cl) + ":" + w.name + ":" + std::to_string(w.gidx(k) + 1);
+                                if (st.has(ck)) chk(st.get(ck) == st.get(key), std::string("completion.connection_view.") + lk.cl, a + " " + ck);
+                            }
+                    }
+                    for (const auto& tr : { std::pair<const char*, const char*>{"WOPTL", "WOPRL"}, {"WGPTL", "WGPRL"}, {"WWITL", "WWIRL"} }) {
+                        const std::string tk = std::string(tr.first) + ":" + w.name + ":" + std::to_string(cs.first);
+                        if (!st.has(tk)) continue;
+                        const double expect = xbefore[w.name + "/" + tr.first + "/" + std::to_string(cs.first)] + LV(w.name, tr.second, cs.first) * full * dt;
+                        chk(close(st.get(tk), expect), std::string("completion.cumulative.") + tr.first, a + " got " + g17(st.get(tk)) + " expected " + g17(expect));
+                    }
+                }
+                // well vector = sum of its connection vectors where the simulator's numbers are consistent
+                if (consistent) {
+                    struct WK { const char* wk; const char* ck; rt p; };
+                    for (const WK& wk : { WK{"WOPR", "COPR", rt::oil}, WK{"WWPR", "CWPR", rt::wat}, WK{"WGPR", "CGPR", rt::gas} }) {
+                        const double qw = it->second.rates.has(wk.p) ? it->second.rates.get(wk.p) : 0.0;
+                        if (!closeRel(qw, connTotal[wk.p], 1e-13) || qw > 0) continue;
+                        double sum = 0.0; for (int k = w.k1; k <= w.k2; ++k) sum += CV(w.name, wk.ck, w.gidx(k) + 1);
+                        if (!st.has_conn_var(w.name, wk.ck, w.gidx(w.k1) + 1)) continue;
+                        chk(close(W(w.name, wk.wk), sum, 1e-12, 0.0), std::string("well.sum_of_connections.") + wk.wk, a + " " + wk.wk + "=" + g17(W(w.name, wk.wk)) + " sum " + g17(sum));
+                        ++lvlStats["well.sum_of_connections"];
+                    }
+                }
+                // segments
+                if (w.msw)
+                    for (int sno = 1; sno <= w.k2 - w.k1 + 2; ++sno) {
+                        const data::Segment* sg = nullptr;
+                        if (fl) { auto sp = it->second.segments.find(sno); if (sp != it->second.segments.end()) sg = &sp->second; }
+                        const std::string as = a + "/seg" + std::to_string(sno);
+                        struct SR { const char* key; rt p; double f; };
+                        for (const SR& sr : { SR{"SOFR", rt::oil, uc.liq}, SR{"SWFR", rt::wat, uc.liq}, SR{"SGFR", rt::gas, uc.gas} }) {
+                            if (!st.has_segment_var(w.name, sr.key, sno)) continue;
+                            const double qv = (sg && sg->rates.has(sr.p)) ? sg->rates.get(sr.p) : 0.0;
+                            chk(close(SV(w.name, sr.key, sno), -qv * sr.f, 1e-12, 0.0), std::string("segment.rate.") + sr.key, as + " got " + g17(SV(w.name, sr.key, sno)) + " expected " + g17(-qv * sr.f));
+                            ++lvlStats["segment.rate"];
+                        }
+                        using SP = data::SegmentPressures::Value;
+                        struct PK { const char* key; SP v; };
+                        for (const PK& pk : { PK{"SPR", SP::Pressure}, PK{"SPRD", SP::PDrop}, PK{"SPRDH", SP::PDropHydrostatic}, PK{"SPRDF", SP::PDropFriction}, PK{"SPRDA", SP::PDropAccel} })
+                            if (st.has_segment_var(w.name, pk.key, sno))
+                                chk(close(SV(w.name, pk.key, sno), sg ? sg->pressures[pk.v] * pf : 0.0, 1e-12, 0.0), std::string("segment.pressure.") + pk.key, as);
+                        if (st.has_segment_var(w.name, "SWCT", sno)) chk(ratioHolds(SV(w.name, "SWCT", sno), SV(w.name, "SWFR", sno), SV(w.name, "SWFR", sno), SV(w.name, "SOFR", sno)), "segment.ratio.SWCT", as);
+                        if (st.has_segment_var(w.name, "SGOR", sno)) chk(ratioHolds(SV(w.name, "SGOR", sno), SV(w.name, "SGFR", sno), SV(w.name, "SOFR", sno), 0.0), "segment.ratio.SGOR", as);
+                        for (const auto& tr : { std::pair<const char*, const char*>{"SOFT", "SOFR"}, {"SGFT", "SGFR"}, {"SWFT", "SWFR"} }) {
+                            if (!st.has_segment_var(w.name, tr.first, sno)) continue;
+                            const double expect = xbefore[w.name + "/" + tr.first + "/" + std::to_string(sno)] + SV(w.name, tr.second, sno) * full * dt;
+                            chk(close(SV(w.name, tr.first, sno), expect), std::string("segment.cumulative.") + tr.first, as + " got " + g17(SV(w.name, tr.first, sno)) + " expected " + g17(expect));
+                        }
+                    }
+            }
+            // --- regions: sum over the connections in the region of rate x efficiency, clamped to the direction --
+            {
+                struct RK { const char* key; rt p; double f; bool inj; };
+                double sumNum[6] = {0, 0, 0, 0, 0, 0}, sumAbc = 0.0;
+                int ki = 0;
+                for (const RK& rk : { RK{"ROPR", rt::oil, uc.liq, false}, RK{"RWPR", rt::wat, uc.liq, false}, RK{"RGPR", rt::gas, uc.gas, false},
+                                      RK{"ROIR", rt::oil, uc.liq, true}, RK{"RWIR", rt::wat, uc.liq, true}, RK{"RGIR", rt::gas, uc.gas, true} }) {
+                    for (int r = 1; r <= 4; ++r) {
+                        if (!st.has_region_var("FIPNUM", rk.key, r)) continue;
+                        double expect = 0.0;
+                        for (const auto& w : c.wells) {
+                            auto it = wd.find(w.name);
+                            if (it == wd.end()) continue;
+                            const double f = known(w) ? w.wefac[s] * groupUp(w.group) : 1.0;
+                            for (const auto& cn : it->second.connections) {
+                                bool mine = false;
+                                for (int k = w.k1; k <= w.k2; ++k) mine = mine || (cn.index == static_cast<std::size_t>(w.gidx(k)) && fipnumOf(w.gidx(k)) == r);
+                                if (!mine) continue;
+                                const double v = (cn.rates.has(rk.p) ? cn.rates.get(rk.p) : 0.0) * f;
+                                if ((v > 0) == rk.inj) {
+                                    expect += rk.inj ? v : -v;
+                                    if (v != 0.0 && it->second.dynamicStatus == Well::Status::SHUT) ++lvlStats["region.noted_shut_well_with_connection_rates_contributes"];
+                                }
+                            }
+                        }
+                        chk(close(RV("FIPNUM", rk.key, r), expect * rk.f, 1e-11, 0.0), std::string("region.rate.") + rk.key,
+                            at + "/FIPNUM" + std::to_string(r) + " " + rk.key + "=" + g17(RV("FIPNUM", rk.key, r)) + " expected " + g17(expect * rk.f));
+                        ++lvlStats["region.rate"];
+                        chk(RV("FIPNUM", rk.key, r) >= 0.0, "region.nonneg", at);
+                        sumNum[ki] += RV("FIPNUM", rk.key, r);
+                    }
+                    ++ki;
+                }
+                // two region sets partition the same connections: the sums over the regions agree
+                if (st.has_region_var("FIPABC", "ROPR_ABC", 1)) {
+                    for (int r = 1; r <= 3; ++r) sumAbc += RV("FIPABC", "ROPR_ABC", r);
+                    chk(close(sumNum[0], sumAbc, 1e-11, 0.0), "region.partition.ROPR", at + " sum over FIPNUM " + g17(sumNum[0]) + " sum over FIPABC " + g17(sumAbc));
+                    ++lvlStats["region.partition"];
+                }
+                for (int r = 1; r <= 4; ++r)
+                    for (const auto& tr : { std::pair<const char*, const char*>{"ROPT", "ROPR"}, {"RGPT", "RGPR"}, {"RWPT", "RWPR"}, {"ROIT", "ROIR"}, {"RGIT", "RGIR"}, {"RWIT", "RWIR"} }) {
+                        if (!st.has_region_var("FIPNUM", tr.first, r)) continue;
+                        const double expect = xbefore[std::string("R/") + tr.first + "/" + std::to_string(r)] + RV("FIPNUM", tr.second, r) * dt;
+                        chk(close(RV("FIPNUM", tr.first, r), expect), std::string("region.cumulative.") + tr.first, at + "/FIPNUM" + std::to_string(r) + " got " + g17(RV("FIPNUM", tr.first, r)) + " expected " + g17(expect));
+                    }
+            }
+            // --- network nodes ---------------------------------------------------------------------------------
+            for (const auto& g : c.groups) {
+                auto np = net.nodeData.find(g.name);
+                if (st.has_group_var(g.name, "GPR")) { chk(close(G(g.name, "GPR"), np == net.nodeData.end() ? 0.0 : np->second.pressure * pf, 1e-12, 0.0), "node.GPR", at + "/" + g.name); ++lvlStats["node.pressure"]; }
+                if (st.has_group_var(g.name, "NPR")) chk(close(G(g.name, "NPR"), np == net.nodeData.end() ? 0.0 : np->second.converged_pressure * pf, 1e-12, 0.0), "node.NPR", at + "/" + g.name);
+            }
+
             // --- groups: hierarchy -----------------------------------------------------------
             for (size_t gi = 0; gi < c.groups.size(); ++gi) {
                 const auto& g = c.groups[gi];
@@ -1044,6 +1250,8 @@ int runProp(uint64_t seed, bool thorough, const std::string& outdir) {
     ps << "{\n  \"checked\": " << log.checked << ",\n  \"failed\": " << log.failed << ",\n  \"cases\": " << ncases
        << ",\n  \"ratio_checks\": {";
     { bool first = true; for (const auto& kv : ratioStats) { ps << (first ? "" : ", ") << "\"" << kv.first << "\": " << kv.second; first = false; } }
+    ps << "},\n  \"level_checks\": {";
+    { bool first = true; for (const auto& kv : lvlStats) { ps << (first ? "" : ", ") << "\"" << kv.first << "\": " << kv.second; first = false; } }
     ps << "}"
        << ",\n  \"outside_quantifier_brine_energy_totals_checked\": " << noted_checked
        << ",\n  \"outside_quantifier_brine_energy_totals_without_efac\": " << noted_dev << "\n}\n";
